@@ -5,7 +5,7 @@ import re
 from types import GeneratorType
 from typing import Union, List, TYPE_CHECKING
 
-from twisted.web.template import Tag, XMLString, flattenString
+from twisted.web.template import Tag, XMLString, flattenString, slot
 from twisted.python.failure import Failure
 
 if TYPE_CHECKING:
@@ -38,8 +38,27 @@ def html2stan(html: Union[bytes, str]) -> Tag:
         stan = XMLString(b'%s' % html).load()[0]
         assert isinstance(stan, Tag)
         assert stan.tagName == 'html'
+    _refuse_template_directives(stan)
     stan.tagName = ''
     return stan
+
+def _refuse_template_directives(stan: Tag) -> None:
+    """
+    The HTML given to L{html2stan} is data (the output of docutils, of the colorizer): elements and attributes of
+    the L{twisted.web.template} namespace found in it must not be run as template directives when the page is written.
+
+    @raises ValueError: If the tree contains a renderer, a slot, a transparent tag or an attribute that is not text.
+    """
+    todo = [stan]
+    while todo:
+        tag = todo.pop()
+        if tag.render is not None or not tag.tagName or any(not isinstance(v, (str, bytes)) for v in tag.attributes.values()):
+            raise ValueError("twisted.web.template directive in HTML data")
+        for child in tag.children:
+            if isinstance(child, Tag):
+                todo.append(child)
+            elif isinstance(child, slot):
+                raise ValueError("twisted.web.template slot in HTML data")
 
 def flatten(stan: "Flattenable") -> str:
     """
